@@ -22,7 +22,7 @@ from vlib import env, harness, gen_systems  # noqa: E402
 import numpy as np  # noqa: E402
 
 PROP = "C29"
-LABELS = ["G", "GAMMA", "X", "M", "K", "L", "W", "U", "A", "H", "R", "Z", "S_0", "A1", "Y"]
+LABELS = ["G", "GAMMA", "X", "M", "K", "L", "W", "U", "A", "H", "R", "Z", "S_0", "A1", "Y", "", "", "0", "$\\Gamma$", " "]   # incl. unnamed nodes
 HS = np.array([0.0, 0.5, 1 / 3, 2 / 3, 0.25, 0.75, 1.0, -0.5])
 GAP_GUARD = 1e-3  # band-resolved non-scalar quantities are compared only where all gaps exceed this
 LEAK_MECH = "evaluate_k_path(ibands)_leaves_ibands_in_available_quantities"
